@@ -18,7 +18,7 @@ MANIFEST = {
           'matching zero, one or several sections is pushed through writeCachedDataPoints(); the arguments of '
           'database.create() must equal the reference (first match in file order, documented defaults).',
   'note': 'Backend = in-memory verifmem plugin (whisper absent, so whisper.validateArchiveList is not exercised). '
-          'Invalid retention strings (which make carbon exit) and out-of-range xFilesFactor are outside the pools. A 16-pattern regex pool (alternations, groups, classes, flags, look-ahead) is run as first section before a catch-all in both files.',
+          'Invalid retention strings (which make carbon exit) and out-of-range xFilesFactor are outside the pools. A 16-pattern regex pool (alternations, groups, classes, flags, look-ahead) is run as first section before a catch-all in both files. A tagged name whose bare path is matched by end-anchored patterns.',
 }
 
 UNITS = {'s': 1, 'm': 60, 'h': 3600, 'd': 86400, 'w': 604800, 'y': 31536000}
@@ -38,7 +38,7 @@ AGG_POOL = [
   ('only_method', {'pattern': r'^a\.b', 'aggregationMethod': 'last'}),
   ('nopattern', {'xFilesFactor': '0.3', 'aggregationMethod': 'max'}),
 ]
-NAMES = ['a.b', 'a.x', 'x.b', 'c', 'zzz', 'ab', 'm;k=v']
+NAMES = ['a.b', 'a.x', 'x.b', 'c', 'zzz', 'ab', 'm;k=v', 'a.b;k=v']
 # the pattern is a regular expression searched in the metric name: shapes that a shortcut around the regex engine
 # (literal-prefix tests, joined alternations, anchoring by hand) gets wrong
 PATTERN_POOL = [r'^a\.|^x\.', r'^zz|\.b$', r'^zzz|c', r'^(a|x)\.', r'^ab?$', r'^[ax]\.', r'^a\.b$', r'a|^c', r'(?i)^A\.', r'^(?!a)',
